@@ -152,6 +152,8 @@ class Observer:
         self.nbusy = 0
         self.inst_by_k: dict[int, Inst] = {}
         self.obj_k: dict[int, int] = {}
+        self.pending_maxsize: int | None = None    # the bound of the scheduler's pending queue AS THE CODE BUILT IT
+        self.lock_held: list[str] = []             # labels at which the scheduler's lock was held by a suspended task
 
     # ---- helpers --------------------------------------------------------------------------------
     def now(self) -> float:
@@ -182,8 +184,23 @@ class Observer:
         self.max_running = max(self.max_running, run)
         return [pend, run, st]
 
+    # segments of the watcher / of a worker that contain no scheduler code: whoever holds the scheduler's lock while one
+    # of them runs, holds it ACROSS A SUSPENSION (Lean C01_Sched: `lock_free_between_segments` for the unbounded queue)
+    OUTSIDE_SCHEDULER = ("arrive", "take", "ttake", "finish", "start")
+
     def label(self, lab: list, snap: bool = True) -> None:
         self.pos += 1
+        if lab[0] in self.OUTSIDE_SCHEDULER and self.scheduler is not None:
+            cond = getattr(self.scheduler, "_condition", None)
+            try:
+                held = cond is not None and cond.locked()
+            except Exception:  # noqa: BLE001
+                held = False
+            if held:
+                if not self.lock_held:
+                    self.anomalies.append(f"the scheduler's lock is held by a suspended task (seen at {lab}): in the model every "
+                                          f"scheduler segment (spawn's put, the spawner's round, the cleaner's notification) is atomic")
+                self.lock_held.append(f"{lab} at t={self.ticks()}")
         sn = self.snap() if snap else None
         if lab[0] == "miss" and self.streams is None:
             sn = None        # the watcher-local dict is not yet known to the harness
@@ -633,19 +650,39 @@ def simulate(scn: dict, policy: str = "fifo", max_steps: int = 5000) -> dict:
                 o.log_exit(o.by_task[asyncio.current_task()], sys.exc_info()[1])
             return await super().__aenter__()
 
-    class PendingQueue(asyncio.Queue):
+    class PendingMixin:
+        """Observation of `Scheduler._pending_coros`, mixed INTO the class of the queue the scheduler itself has
+        built (`observe_queue`): the queue object, its bound, its order and its content stay the code's own."""
+
         def put_nowait(self, item: Any) -> None:
-            super().put_nowait(item)
+            super().put_nowait(item)  # type: ignore[misc]
             o = owner_of_coro(item.coro) or CUR.get()
             if o is not None:
                 o.on_pending_put(item)
 
+    observed_classes: dict[type, type] = {}
+
+    def observe_queue(q: Any) -> bool:
+        """Makes the scheduler's OWN queue object observable (its class becomes a subclass of what it was, with
+        `PendingMixin` in front). Nothing is re-built by hand: maxsize, the kind of queue (FIFO/LIFO/priority),
+        waiters and items are what `Scheduler.__init__` made them."""
+        cls = type(q)
+        if not isinstance(q, asyncio.Queue):
+            return False
+        if cls not in observed_classes:
+            observed_classes[cls] = type("Observed" + cls.__name__, (PendingMixin, cls), {})
+        try:
+            q.__class__ = observed_classes[cls]
+        except TypeError:
+            return False
+        return True
+
     class ObservedSet(set):
         """`Scheduler._running_tasks`, iterated in insertion order (deterministic replays)."""
 
-        def __init__(self) -> None:
-            super().__init__()
-            self._order: dict[Any, None] = {}
+        def __init__(self, content: Any = ()) -> None:
+            super().__init__(content)
+            self._order: dict[Any, None] = dict.fromkeys(content)
 
         def add(self, task: Any) -> None:
             super().add(task)
@@ -672,17 +709,40 @@ def simulate(scn: dict, policy: str = "fifo", max_steps: int = 5000) -> dict:
             # The observed containers go where the code under test keeps its own: per instance normally. State
             # that the code keeps on the CLASS (shared by all schedulers of the process) stays shared here.
             o = CUR.get()
-            for attr, factory, plain in (("_running_tasks", ObservedSet, set), ("_pending_coros", PendingQueue, asyncio.Queue)):
-                if type(getattr(self, attr, None)) is not plain:
-                    # not the container this harness knows how to observe (renamed / another type): leave the
-                    # code alone — the trace will not match the model (a tie failure), the oracle still judges
+            # `_pending_coros`: the scheduler's own queue object is observed in place (never replaced: a hand-built
+            # queue would silently drop whatever `Scheduler.__init__` configured — a bound, another discipline).
+            q = getattr(self, "_pending_coros", None)
+            if "_pending_coros" in self.__dict__:
+                if not observe_queue(q):
                     if o is not None:
-                        o.anomalies.append(f"Scheduler.{attr} is not a plain {plain.__name__}: the scheduler is not observable")
-                    continue
-                if attr in self.__dict__:
-                    setattr(self, attr, factory())
-                elif attr not in ObservedScheduler.__dict__:
-                    setattr(ObservedScheduler, attr, factory())
+                        o.anomalies.append("Scheduler._pending_coros is not an asyncio.Queue: the scheduler is not observable")
+            elif "_pending_coros" not in ObservedScheduler.__dict__:
+                # state the code keeps on the CLASS (shared by all schedulers of the process) stays shared here: one
+                # queue of the same class and bound for all schedulers of this simulation
+                if isinstance(q, asyncio.Queue):
+                    q = type(q)(maxsize=q.maxsize)
+                    observe_queue(q)
+                    setattr(ObservedScheduler, "_pending_coros", q)
+                elif o is not None:
+                    o.anomalies.append("Scheduler._pending_coros is not an asyncio.Queue: the scheduler is not observable")
+            # `_running_tasks`: a built-in set cannot be observed in place; the observed set takes over its content
+            # (a plain set has no configuration besides its content).
+            rt = getattr(self, "_running_tasks", None)
+            if type(rt) is set:
+                if "_running_tasks" in self.__dict__:
+                    self._running_tasks = ObservedSet(rt)
+                elif "_running_tasks" not in ObservedScheduler.__dict__:
+                    setattr(ObservedScheduler, "_running_tasks", ObservedSet(rt))
+            elif not isinstance(rt, ObservedSet):
+                # not the container this harness knows how to observe (renamed / another type): leave the
+                # code alone — the trace will not match the model (a tie failure), the oracle still judges
+                if o is not None:
+                    o.anomalies.append("Scheduler._running_tasks is not a plain set: the scheduler is not observable")
+            if o is not None:
+                try:
+                    o.pending_maxsize = int(getattr(q, "maxsize", 0) or 0)
+                except (TypeError, ValueError):
+                    o.pending_maxsize = -1
             if o is not None:
                 o.scheduler = self
 
@@ -777,6 +837,26 @@ def simulate(scn: dict, policy: str = "fifo", max_steps: int = 5000) -> dict:
             await r
         result["outcome"] = "done"
 
+    def log_of(o: Observer) -> dict:
+        return {
+            "watcher": o.name,
+            "outcome": o.outcome, "error": result["error"] if o.outcome in ("stall", "deadlock") else None,
+            "labels": o.labels, "anomalies": o.anomalies,
+            "delivered": o.delivered, "calls": o.calls,
+            "insts": [{"k": i.k, "g": i.g, "key": repr(i.key[-1]), "obj": i.obj, "t_created": i.t_created,
+                       "t_spawn": i.t_spawn, "t_exit": i.t_exit, "t_left": i.t_left, "exit": i.exit,
+                       "p_spawn": i.p_spawn, "p_left": i.p_left} for i in o.insts],
+            "stream_end": o.stream_end, "close_p": o.close_p,
+            "closing_t": None if o.closing_t is None else int(round(o.closing_t * 1024)),
+            "cancel_t": None if o.cancel_t is None else int(round(o.cancel_t * 1024)),
+            "fail_t": None if o.fail_t is None else int(round(o.fail_t * 1024)),
+            "end_t": int(round(loop.vtime * 1024)),
+            "max_running": o.max_running, "max_busy": o.max_busy,
+            "pending_maxsize": o.pending_maxsize, "lock_held": o.lock_held[:5],
+            "tie_groups": loop.tie_groups, "iterations": loop.iterations,
+        }
+
+    frozen: list[dict] = []
     try:
         try:
             run_sim(main, wall_limit=120.0, loop=loop)
@@ -791,6 +871,10 @@ def simulate(scn: dict, policy: str = "fifo", max_steps: int = 5000) -> dict:
             else:
                 o.label(["end"])
         verdict = (result["outcome"], result["error"])
+        # the observation ends HERE: what the clean-up below provokes (cancelling whatever still hangs) is not part of
+        # the run — it must neither overwrite a watcher's outcome nor append labels / calls to its log
+        import copy
+        frozen.extend(copy.deepcopy(log_of(o)) for o in observers)
     finally:
         for n, v in saved.items():
             setattr(queueing, n, v)
@@ -820,24 +904,8 @@ def simulate(scn: dict, policy: str = "fifo", max_steps: int = 5000) -> dict:
             lg.setLevel(lv)
     result["outcome"], result["error"] = verdict     # the clean-up above must not overwrite the verdict
 
-    def log_of(o: Observer) -> dict:
-        return {
-            "watcher": o.name,
-            "outcome": o.outcome, "error": result["error"] if o.outcome in ("stall", "deadlock") else None,
-            "labels": o.labels, "anomalies": o.anomalies,
-            "delivered": o.delivered, "calls": o.calls,
-            "insts": [{"k": i.k, "g": i.g, "key": repr(i.key[-1]), "obj": i.obj, "t_created": i.t_created,
-                       "t_spawn": i.t_spawn, "t_exit": i.t_exit, "t_left": i.t_left, "exit": i.exit,
-                       "p_spawn": i.p_spawn, "p_left": i.p_left} for i in o.insts],
-            "stream_end": o.stream_end, "close_p": o.close_p,
-            "closing_t": None if o.closing_t is None else int(round(o.closing_t * 1024)),
-            "cancel_t": None if o.cancel_t is None else int(round(o.cancel_t * 1024)),
-            "fail_t": None if o.fail_t is None else int(round(o.fail_t * 1024)),
-            "end_t": int(round(loop.vtime * 1024)),
-            "max_running": o.max_running, "max_busy": o.max_busy,
-            "tie_groups": loop.tie_groups, "iterations": loop.iterations,
-        }
-
-    log = log_of(obs)
-    log["peer"] = log_of(observers[1]) if len(observers) > 1 else None
+    if len(frozen) != len(observers):       # an exception other than stall/deadlock escaped: nothing was frozen
+        frozen[:] = [log_of(o) for o in observers]
+    log = frozen[0]
+    log["peer"] = frozen[1] if len(observers) > 1 else None
     return log
